@@ -359,6 +359,27 @@ def G35_hidden_instance_state(repo, clause):
                 if isinstance(x, ast.Call) and isinstance(x.func, ast.Name) and x.func.id == "getattr" and len(x.args) >= 2 and isinstance(x.args[0], ast.Name) and x.args[0].id == "self" \
                         and isinstance(const_value(x.args[1]), str):
                     loads.add(const_value(x.args[1]))
+        # class-level containers (`_cache = {}` in the class body) written by a method are state shared by ALL calls and all objects
+        class_tables = {t_.id for st_ in c.body if isinstance(st_, ast.Assign) for t_ in st_.targets if isinstance(t_, ast.Name)
+                        and (isinstance(st_.value, (ast.Dict, ast.List, ast.Set)) or (isinstance(st_.value, ast.Call) and call_name(st_.value) in ("dict", "list", "set", "OrderedDict", "defaultdict")))}
+        for g in [g for g in c.body if isinstance(g, ast.FunctionDef)]:
+            for x in ast.walk(g):
+                tgt = None
+                if isinstance(x, (ast.Assign, ast.AugAssign)):
+                    for t_ in (x.targets if isinstance(x, ast.Assign) else [x.target]):
+                        b_ = t_
+                        while isinstance(b_, ast.Subscript):
+                            b_ = b_.value
+                        if isinstance(b_, ast.Attribute) and isinstance(b_.value, ast.Name) and b_.value.id in ("cls", "self", c.name) and b_.attr in class_tables and (b_ is not t_ or b_.value.id != "self"):
+                            tgt = b_.attr
+                if isinstance(x, ast.Call) and isinstance(x.func, ast.Attribute) and x.func.attr in ("append", "update", "setdefault", "add", "pop", "clear", "extend", "__setitem__") \
+                        and isinstance(x.func.value, ast.Attribute) and isinstance(x.func.value.value, ast.Name) and x.func.value.value.id in ("cls", "self", c.name) and x.func.value.attr in class_tables:
+                    tgt = x.func.value.attr
+                if tgt is not None:
+                    n_store += 1
+                    obs.append(Ob("G35", clause, FileObj(m.relpath, "%s.%s" % (c.name, g.name)), x, False,
+                                  "%s.%s writes the CLASS-level container `%s`: state shared by every call and every object (a cache of parsed files never sees that the file was re-written; "
+                                  "results depend on what was loaded before)" % (c.name, g.name, tgt), slot="class-state:%s.%s:%s" % (c.name, g.name, tgt), positive="robust"))
         props = {g.name for g in c.body if isinstance(g, ast.FunctionDef) and any((dotted(d) or "") == "property" or (dotted(d) or "").endswith(".setter") for d in g.decorator_list)}
         seen = set()
         if init_computed and nf_init is not None and any(isinstance(x, ast.Call) and isinstance(x.func, ast.Name) and x.func.id == "setattr" and len(x.args) > 1
@@ -472,8 +493,17 @@ def G36_refusal_before_mutation(repo, clause, func="Atoms.__delitem__"):
         if not tg:
             continue
         v = st.value
-        raw = isinstance(v, ast.Call) and call_name(v) == "delete" and len(v.args) >= 2 and isinstance(v.args[1], ast.Name) and v.args[1].id == P \
-            and fn.rd.defs_at(st, P) and all(not isinstance(d, ast.AST) for d in fn.rd.defs_at(st, P))
+        def _callers_indices(a):
+            # P itself (still the parameter), or a local that holds the same values in another order / container: sorted(P), list(P), np.asarray(P)
+            if isinstance(a, ast.Name) and a.id == P:
+                return bool(fn.rd.defs_at(st, P)) and all(not isinstance(d, ast.AST) for d in fn.rd.defs_at(st, P))
+            if isinstance(a, ast.Name):
+                uv = fn.rd.unique_value(a) if fn.stmt_of(a) is not None else None
+                if uv is not None and isinstance(uv[1], ast.Call) and call_name(uv[1]) in ("sorted", "list", "tuple", "array", "asarray") and uv[1].args \
+                        and isinstance(uv[1].args[0], ast.Name) and uv[1].args[0].id == P:
+                    return True
+            return False
+        raw = isinstance(v, ast.Call) and call_name(v) == "delete" and len(v.args) >= 2 and _callers_indices(v.args[1])
         (validating if raw else others).append(st)
     if not validating:
         return [Ob("G36", clause, fn, fn.node, False, "no np.delete(self.<array>, %s, ...) with the caller's own index argument found in %s: cannot tell what validates the request" % (P, func),
